@@ -34,7 +34,8 @@ S = Suite(
           "0.5..8 m, receptor on/off cell centres, wd None / multiples of 90 / arbitrary; argument "
           "types float, int, numpy int64/int32/float32->float64 for integral values; estimateZ0 on "
           "20..400 observations, half window 5/22/45, rotations by whole degrees with wind "
-          "directions on a 1/8-degree lattice; U < 0 (empty footprint path) not examined",
+          "directions on a 1/8-degree lattice; call histories (base conditions followed by 9 near-twins differing in one "
+          "argument: sigma_v, z0, ws, u*, L, zm, res, receptor); U < 0 (empty footprint path) not examined",
     rule="cell by cell |got-want| <= 1e-9*want + 1e-25*max(want); exact zero downwind; mass within "
          "3 / 1 / 0.5 / 0.3 % of Q(mu, xi/X) at res 8/4/2/1 for plumes resolved at 8 m",
 )
@@ -154,6 +155,22 @@ def closed_form(zm, z0, ws, ustar, L, sigma_v, dom, res, mxy):
             return Verdict(False, "%s: not symmetric about the wind axis" % tag, key="y-asymmetric")
     return Verdict(True, "%s cells=%d max=%.3e" % (tag, ffm.size, float(ffm.max())),
                    nontrivial=bool(ffm.max() > 0))
+
+
+@S.kind("closed-form-history")
+def closed_form_history(base, variants):
+    """One process, several calls: the base conditions, then near-twins differing in ONE argument (crosswind spread,
+    roughness length, wind speed, friction velocity, stability, height, the integer/float spelling of the same value,
+    grid), each judged by the per-call oracle of `closed-form`; then the base again."""
+    v0 = closed_form(**base)
+    if not v0.ok:
+        return v0
+    for k, var in enumerate(variants + [{}]):
+        v = closed_form(**dict(base, **var))
+        if not v.ok:
+            return Verdict(False, "call %d after the base call (%r changed): %s" % (k + 1, var or "nothing: base repeated", v.detail),
+                           key="history-" + (v.key or "closed-form"))
+    return Verdict(True, "%d calls" % (len(variants) + 2))
 
 
 def _cast(v, t):
@@ -395,6 +412,16 @@ def generate(tier, rng):
             res = res * scale
         yield "closed-form", dict(zm=zm, z0=z0, ws=ws, ustar=ustar, L=L, sigma_v=sv, dom=dom,
                                   res=res, mxy=mxy)
+    # ---- call histories: near-twin conditions in one process
+    for k in range(4 if q else 30):
+        zm, z0, ws, ustar, L, sv = _physical(rng)
+        res = rng.choice([1.0, 2.0, 4.0])
+        nx, ny = rng.randint(8, 30), 2 * rng.randint(4, 12)
+        dom = [-res * 2, -res * 2 + nx * res, -ny * res / 2.0, ny * res / 2.0]
+        base = dict(zm=zm, z0=z0, ws=ws, ustar=ustar, L=L, sigma_v=sv, dom=dom, res=res, mxy=[0.0, 0.0])
+        yield "closed-form-history", dict(base=base, variants=[dict(sigma_v=sv * 2.0), dict(sigma_v=sv * 0.999), dict(z0=z0 * 1.01), dict(ws=ws * 1.02),
+                                                              dict(ustar=ustar * 0.98), dict(L=L * 1.05), dict(zm=zm * 1.001), dict(res=res * 2.0),
+                                                              dict(mxy=[res, 0.0])])
     # ---- integers and floats alike
     names = ("zm", "z0", "ws", "ustar", "L", "sigma_v")
     for vals in INT_SETS:
